@@ -11,6 +11,8 @@ def run(F, G, tier, seed):
     ownership.run_stable(chk, F)
     ownership.run_edge(chk, F)
     ownership.run_endpoint_null(chk, F)
+    ownership.run_tadef(chk, F)
+    ownership.run_lineuid(chk, F)
     instances.run(chk, F)
     instances.run_arity_sync(chk, F)
     return chk.finish(
